@@ -234,6 +234,7 @@ fn state_diff(a: &Solo, b: &Solo) -> Option<String> {
 pub fn fork(kind: ForkKind, cfg_a: &Cfg, cfg_b: &Cfg, head_a: &[Op], head_b: &[Op], cont: &[Op], mangle: ExportMangle) -> ForkResult {
     let mut a = Solo::new(cfg_a.clone());
     let mut b = Solo::new(cfg_b.clone());
+    let mut late: Option<crate::model::Durable> = None;
     run_ops(&mut a, head_a);
     run_ops(&mut b, head_b);
     if kind == ForkKind::Crash && !b.w.failed() {
@@ -241,7 +242,11 @@ pub fn fork(kind: ForkKind, cfg_a: &Cfg, cfg_b: &Cfg, head_a: &[Op], head_b: &[O
         if b.w.m.st != St::Disc || b.w.want_close {
             b.exec(&Op::Close { partial: 0 });
         }
-        b.w.crash_restore(mangle);
+        if mangle == ExportMangle::LateRestore && !b.acting_client {
+            late = b.w.crash_take();
+        } else {
+            b.w.crash_restore(mangle);
+        }
         b.owned.clear();
         b.inbox.clear();
     }
@@ -297,6 +302,15 @@ pub fn fork(kind: ForkKind, cfg_a: &Cfg, cfg_b: &Cfg, head_a: &[Op], head_b: &[O
         b.exec(op);
         if a.w.failed() || b.w.failed() {
             break;
+        }
+        if matches!(op, Op::Connect { .. }) {
+            // the broker now knows whose session this is
+            if let Some(d) = late.take() {
+                b.w.restore_durable(&d);
+                if b.w.failed() {
+                    break;
+                }
+            }
         }
         if kind == ForkKind::Fresh && i + 1 == hs && a.w.m.st != St::Connected && b.w.m.st != St::Connected {
             // no new session came into being on either object (e.g. both refuse the handshake
